@@ -73,6 +73,19 @@ class CallMixin:
             if isinstance(v, OptV):
                 return OptV(v.none, v.val, t)
             return OptV(z3.BoolVal(False), self.coerce_to(st, v, t.args[0]), t)
+        if t.kind == 'sort' and isinstance(v, SV) and v.t.kind == 'int':
+            return self.embed_int(st, v.e, t)
+        if t.kind == 'list' and t.args[0].kind == 'sort' and isinstance(v, RangeV):
+            # range(a, b) passed where a collection of abstract elements is expected: element j is the embedding of a + j
+            lo, hi, step = self.num(v.start, st)[0], self.num(v.stop, st)[0], z3.simplify(self.num(v.step, st)[0])
+            if not (z3.is_int_value(step) and step.as_long() == 1):
+                raise OutOfSubset('range with a step where %r declared' % (t,))
+            n = fresh_const('emb_n', z3.IntSort())
+            st.assume(n == z3.If(hi >= lo, hi - lo, 0))
+            arr = fresh_const('emb_arr', z3.ArraySort(z3.IntSort(), sort_of(t.args[0])))
+            j = fresh_const('q', z3.IntSort())
+            st.assume(z3.ForAll([j], z3.Implies(z3.And(0 <= j, j < n), z3.Select(arr, j) == self.embed_int(st, lo + j, t.args[0]).e)))
+            return new_list(st, t, arr, n)
         if t.kind == 'real' and isinstance(v, SV) and v.t.kind in ('int', 'bool'):
             return SV(REAL, pack(st, v, REAL))
         if t.kind == 'int' and isinstance(v, SV) and v.t.kind == 'bool':
@@ -92,6 +105,18 @@ class CallMixin:
                     return Ref(v.id, t)
                 raise OutOfSubset('container of type %r where %r declared' % (c.t, t))
         return v
+
+    def embed_int(self, st, e, t):
+        """An integer used where the abstract element sort `t` is declared (contracts proved for an uninterpreted element
+        sort hold for every element type, in particular for integers): the injective embedding inj_t : Int -> t."""
+        S = sort_of(t)
+        inj = z3.Function('inj_%s' % t.name, z3.IntSort(), S)
+        uninj = z3.Function('uninj_%s' % t.name, S, z3.IntSort())
+        i = fresh_const('q', z3.IntSort())
+        ax = z3.ForAll([i], uninj(inj(i)) == i, patterns=[inj(i)])
+        st.assume(ax)
+        self.externals_used.add('integers embedded into the abstract element sort %s by an injective function (contracts over %s are parametric in the element type)' % (t.name, t.name))
+        return SV(t, inj(e))
 
     def dummy(self, st, t):
         sub = State()
@@ -501,6 +526,9 @@ class CallMixin:
                 return
         if isinstance(f, ClassV):
             yield from self.construct(f, args, kwargs, st, node)
+            return
+        if isinstance(f, SortV) and f.ty.kind == 'sort' and len(args) == 1:
+            yield self.coerce_to(st, args[0], f.ty), st      # spec: Elt(i) -- the embedding of an integer
             return
         raise OutOfSubset('call of %r' % (f,))
 
